@@ -113,6 +113,13 @@ pub async fn macro_step_kind(run: &mut Run, n: u64, script: u64, kind: u64, mon:
         }
         if kind == 2 && round == 1 {
             run.apply(&Ev::Register { who: all.clone(), label_offset: 0 }, mon).await?;
+            // signers are often faster than the aggregator at an epoch change: the epoch service
+            // already works on the new epoch but the first message of the epoch is not open yet;
+            // their signatures for it are buffered and handed over when it opens (the hand-over
+            // crash points are then reached for the round every epoch depends on)
+            if (n + script) % 2 == 1 && run.open_discriminants().is_empty() {
+                run.apply(&Ev::Sign { disc: SignedEntityTypeDiscriminants::MithrilStakeDistribution, who: all.clone(), mode: SignMode::Valid, authenticated: true }, mon).await?;
+            }
         }
         let snap = sim::snapshot(&run.sim.db_path())?;
         run.prev = snap;
